@@ -61,6 +61,7 @@ type Behavior struct {
 	ExtReqq       int            // reqq advertised (0 = omit)
 	ExtM          map[string]any // m dictionary (nil = ut_metadata:2, ut_pex:1)
 	MetadataSize  int            // advertised metadata_size (0 = real size, <0 = omit)
+	MetaLimit     int            // the SUT's MaxMetadataSize (0 = unknown): a request to a peer advertising more is a C13 violation
 	MetaMode      string         // "", "honest", "reject", "silent", "garbage", "wrongbytes", "wrongsize", "dup", "unrequested"
 	ClientVersion string
 	PEXAdded      [][]string // PEX rounds: each a list of "ip:port" sent as `added`
@@ -162,6 +163,8 @@ type Peer struct {
 	PEXRecv         int      // PEX messages received from the SUT
 	ExtHandshakeRx  map[string]any
 	drainDone       bool
+	MsgCount        int           // messages received from the SUT
+	HandshakeAt     time.Duration // when the SUT's handshake was received (0 = never)
 	onMetaData      func(piece int, dict map[string]any, data []byte)
 }
 
@@ -252,6 +255,7 @@ func (p *Peer) Run(c net.Conn) error {
 		return p.finish(err)
 	}
 	p.HS = hs
+	p.HandshakeAt = simrt.Now()
 	if hs.InfoHash != p.InfoHash {
 		p.violate("C11", "handshake.infohash", "SUT handshake carries info-hash %x, want %x", hs.InfoHash, p.InfoHash)
 		return p.finish(errors.New("wrong infohash"))
@@ -662,6 +666,9 @@ func (p *Peer) readLoop() error {
 			}
 			return err
 		}
+		p.mu.Lock()
+		p.MsgCount++
+		p.mu.Unlock()
 		if p.H.OnMsg != nil {
 			p.H.OnMsg(p, m)
 		}
@@ -1285,6 +1292,9 @@ func (p *Peer) onMetadata(m Msg) {
 		id := p.sutMetaID
 		p.mu.Unlock()
 		simrt.Count("probe.peer.metadata_request", 1)
+		if adv := p.advertisedMetaSize(); p.B.MetaLimit > 0 && adv > p.B.MetaLimit {
+			p.violate("C13", "metadata.fetched_over_limit", "ut_metadata request for piece %d sent to a peer that announced metadata_size %d, the configured maximum is %d", piece, adv, p.B.MetaLimit)
+		}
 		if id == 0 {
 			id = 1
 		}
@@ -1500,4 +1510,14 @@ func (p *Peer) fuzzRequest() bool {
 	}
 	p.Request(Req{uint32(i), uint32(b), uint32(l)})
 	return true
+}
+
+func (p *Peer) advertisedMetaSize() int {
+	switch {
+	case p.B.MetadataSize > 0:
+		return p.B.MetadataSize
+	case p.B.MetadataSize == 0 && p.T != nil && p.B.MetaMode != "":
+		return len(p.T.InfoBytes)
+	}
+	return 0
 }
